@@ -20,6 +20,19 @@ PLANS = {
                 gen=[G("roundtrip", 600, 20000, "TraceCursor", "TraceCursor.cfg")]),
     "C02": dict(level="model_checking", assumptions=TRUST,
                 gen=[G("seeks", 64, 2000, "TraceCursor", "TraceCursor.cfg")]),
+    "C04": dict(level="model_checking", assumptions=TRUST,
+                gen=[G("ranges", 96, 3000, "TraceIter", "TraceIter.cfg")]),
+    "C05": dict(level="model_checking", assumptions=TRUST,
+                gen=[G("prefixes", 96, 3000, "TraceIter", "TraceIter.cfg")]),
+    "C10": dict(level="model_checking", assumptions=TRUST + ["V1 files are built by replacing the V2 trailer of an index_levels=0 file with an independently encoded 21-byte V1 trailer"],
+                gen=[G("roundtrip_v1", 150, 5000, "TraceCursor", "TraceCursor.cfg"),
+                     G("seeks_v1", 32, 800, "TraceCursor", "TraceCursor.cfg"),
+                     G("history_v1", 48, 1500, "TraceCursor", "TraceCursor.cfg"),
+                     G("iters_v1", 48, 1500, "TraceIter", "TraceIter.cfg")]),
+    "C16": dict(level="model_checking", assumptions=TRUST + ["block loads are counted as absolute seeks on the instrumented source (every block load is preceded by exactly one)"],
+                gen=[G("history", 100, 3000, "TraceCursor", "TraceCursor_C16.cfg"),
+                     G("seeks", 32, 800, "TraceCursor", "TraceCursor_C16.cfg"),
+                     G("big", 16, 200, "TraceCursor", "TraceCursor_C16.cfg")]),
     "C09": dict(level="model_checking", assumptions=TRUST + ["independent decoder: sequential walk, codec crates, LEB128 framing parser"],
                 gen=[G("format", 400, 12000, "TraceLayout", "TraceLayout_C09.cfg")]),
     "C15": dict(level="model_checking", assumptions=TRUST + ["independent decoder: sequential walk, codec crates, LEB128 framing parser"],
